@@ -181,7 +181,19 @@ def run_part(ctx):
     for inst, obs in cases[:2] + cases[7:9]:
         ctx.sample({"arc_instance": ac.describe(inst), "num_variables": obs["n"], "var_mapping_head": obs["vars"][:4]})
 
+    # canary: the comparison pipeline must detect a wrong value
+    canary = None
+    if cases:
+        inst0, obs0 = cases[0]
+        bad = dict(obs0)
+        bad["n"] = obs0["n"] + 1
+        canary = len(terms)
+        terms.append(case_lit(inst0, bad))
     mism, err = ctx.coq_mismatches("arc", ac.HEADER, "c18case", "check_c18case", terms, shard=40)
+    if canary is not None:
+        if not err and not any(idx == canary for idx, _ in mism):
+            ctx.tooling_failure("correspondence/arc-canary", "a deliberately wrong case was not flagged by the Coq comparison")
+        mism = [(i, t) for i, t in mism if i < canary]
     for idx, tags in mism[:2]:
         inst, obs = cases[idx]
         msg = oracle(inst, obs)
